@@ -47,6 +47,10 @@ type Sel struct {
 	Dfr   bool   `json:"dfr"`  // resolved: fragment is deferred
 	Label string `json:"label"`
 	Sels  []*Sel `json:"sels"`
+	// argument fault class of this field's arguments ("" | err | panic) and the
+	// name of the faulting argument: an input unmarshaler that fails (C04)
+	AFault string `json:"afault"`
+	AName  string `json:"aname"`
 
 	SkipSrc string `json:"-"` // "" | lit | var
 	InclSrc string `json:"-"`
@@ -187,6 +191,7 @@ type GenOpts struct {
 	Frags     bool     // allow named fragments
 	Avoid     []string // field names never selected
 	Kind      string   // query | mutation
+	ArgFaults bool     // boomArg(b:) with failing / panicking input unmarshaler
 }
 
 type opGen struct {
@@ -393,6 +398,16 @@ func (g *opGen) field(tn string, depth int) *Sel {
 			continue
 		}
 		s := &Sel{K: "field", Alias: g.alias(n), Name: n, Incl: true}
+		if n == "boomArg" && g.o.ArgFaults {
+			switch g.r.Intn(4) {
+			case 0:
+				s.Alias, s.Args = "boomArg_ok", `(b: "fine")`
+			case 1:
+				s.Alias, s.Args, s.AFault, s.AName = "boomArg_err", `(b: "err")`, "err", "b"
+			case 2:
+				s.Alias, s.Args, s.AFault, s.AName = "boomArg_panic", `(b: "panic")`, "panic", "b"
+			}
+		}
 		if !leaf {
 			s.Sels = g.selSet(fd.Name, depth-1, false)
 		}
